@@ -13,6 +13,7 @@ DECIDED = ("R1 Kernel::bind: the socket is created and its binding inserted only
            "lookup of the destination; loopback never leaves the kernel (C19-R3).")
 NOT_DECIDED = "the accept/reject matrix as a function of live sockets; SO_REUSE* (not modelled)."
 DECIDED += "; R2 also the converse: wherever Socket::bound is set the binding index is updated in the same function"
+DECIDED += "; R4 also: a SYN for the pair of a Closed connection reaches the listener"
 ASSUMPTIONS = []
 
 K = "turmoil_net::kernel::Kernel::"
